@@ -749,6 +749,7 @@ def pack_named_tuple(spec: ValueSpec) -> Expression:
                 type=annotations.get(field, Any),
                 expression=f"{spec.expression}[{idx}]",
                 could_be_none=True,
+                owner=spec.type,
             )
         )
         packers.append(packer)
